@@ -80,6 +80,7 @@ Init == \/ kind = "int" /\ start \in IntStarts /\ hist = <<>> /\ val = start /\ 
 Next == /\ okv /\ Len(hist) < MaxOps /\ UNCHANGED <<kind, start>>
         /\ \/ /\ kind = "int"
               /\ \E op \in IntOps :
+                    /\ (op.o = "pow" => val >= -12 /\ val <= 12)      \* keeps the cube inside Small (and TLC's 32-bit integers)
                     /\ hist' = Append(hist, op)
                     /\ IF Defined(val, op) THEN (LET r == IntApply(val, op) IN Small(r) /\ val' = r /\ okv' = TRUE)
                        ELSE val' = val /\ okv' = FALSE            \* division by zero, negative shift or exponent: refused
